@@ -202,6 +202,7 @@ func checkC08(c *Ctx) {
 			{"args-are-values/function", "令计 = 0\n如何下一个？\n\t以计（自增：1）\n\t输出 计\n如何成对？\n\t输入甲、乙\n\t输出【甲，乙】\n输出（成对：（下一个）、（下一个））\n", `list[num(1),num(2)]`},
 			{"args-are-values/constructor", "定义点：\n\t其横 = 0\n\t其纵 = 0\n如何新建点？\n\t输入甲、乙\n\t其横 = 甲\n\t其纵 = 乙\n令数 = 1\n令物 = （新建点：数、以数（自增：10））\n输出【物之横，物之纵】\n", `list[num(1),num(11)]`},
 			{"args-are-values/type-method", "定义箱：\n\t其记 = 0\n\t如何装？\n\t\t输入甲、乙\n\t\t输出【甲，乙】\n令数 = 1\n令物 = （新建箱）\n输出 以物（装：数、以数（自增：10））\n", `list[num(1),num(11)]`},
+			{"args-are-values/thrown-constructor", "定义错：\n\t其甲 = 0\n\t其乙 = 0\n如何新建错？\n\t输入子、丑\n\t其甲 = 子\n\t其乙 = 丑\n如何试？\n\t令数 = 5\n\t抛出错：数、以数（自增：1）！\n\n\t拦截错：\n\t\t输出【其甲，其乙】\n输出（试）\n", `list[num(5),num(6)]`},
 			{"args-are-values/display", "令数 = 1\n（显示：数、{以数（自增：10）}、数）\n输出 数\n", `num(11)`},
 			// the call yields the value of the 输出 that was reached first, from inside any loop over any
 			// kind of collection, and nothing of the method runs afterwards
